@@ -117,3 +117,33 @@ Definition reorder_in_place (st : ostate) (clone_idx : index) (output_idx : inde
   let ops := reorder_ops output_idx clone' in
   let '(st', idx', moved) := exec_ops ops st clone' [] 0 in
   (st', idx', moved + total).
+
+(* ---------- a whole clone at the library level (what src/clone_cmd.rs::clone_archive does with the
+   pieces above): optional in-place reorder, seeds, then the archive's chunks still in the index ---------- *)
+Definition feed_list (st : ostate) (idx : index) (feeds : list (N * list N)) : ostate * index * list N :=
+  fold_left (fun acc kd =>
+               let '(st, idx, fed) := acc in
+               match o_err st with
+               | Some _ => acc
+               | None => let '(st', idx', n) := feed st idx (fst kd) (snd kd) in
+                         (st', idx', match o_err st' with None => fed ++ [n] | Some _ => fed end)
+               end) feeds (st, idx, []).
+
+Record clone_result := { cr_state : ostate; cr_index : index; cr_moved : N; cr_fed : list N; cr_fetch : list N }.
+
+(* [arch]: the archive's chunk descriptors in archive order as (key, data delivered for it) *)
+Definition clone_model (prior : list N) (fault : option (N * N)) (clone_idx : index) (out_idx : option index)
+  (seeds : list (N * list N)) (arch : list (N * list N)) : clone_result :=
+  let st0 := o_init prior fault in
+  let '(st1, idx1, moved) :=
+    match out_idx with
+    | Some oi => reorder_in_place st0 clone_idx oi
+    | None => (st0, clone_idx, 0)
+    end in
+  let '(st2, idx2, fed2) := feed_list st1 idx1 seeds in
+  (* Archive::chunk_stream: descriptors filtered by the index, in archive order *)
+  let fetch := match o_err st2 with
+               | None => filter (fun kd => ci_contains idx2 (fst kd)) arch
+               | Some _ => [] end in
+  let '(st3, idx3, fed3) := feed_list st2 idx2 fetch in
+  {| cr_state := st3; cr_index := idx3; cr_moved := moved; cr_fed := fed2 ++ fed3; cr_fetch := map fst fetch |}.
